@@ -1,0 +1,278 @@
+// Copyright 2020-2025 Buf Technologies, Inc.
+//
+// Licensed under the Apache License, Version 2.0 (the "License");
+// you may not use this file except in compliance with the License.
+// You may obtain a copy of the License at
+//
+//      http://www.apache.org/licenses/LICENSE-2.0
+//
+// Unless required by applicable law or agreed to in writing, software
+// distributed under the License is distributed on an "AS IS" BASIS,
+// WITHOUT WARRANTIES OR CONDITIONS OF ANY KIND, either express or implied.
+// See the License for the specific language governing permissions and
+// limitations under the License.
+
+//go:build verif
+
+// Package verifhook provides observation and fault-injection points for
+// runtime verification. Without the "verif" build tag every function is a no-op.
+//
+// All state is process-global and protected by one mutex; it never shares
+// memory with the code being observed.
+package verifhook
+
+import (
+	"errors"
+	"os"
+	"runtime"
+	"strconv"
+	"strings"
+	"sync"
+	"syscall"
+	"time"
+)
+
+// ErrInjected is the error injected by WriteFault and ErrFault.
+var ErrInjected = errors.New("verifhook: injected fault")
+
+// Event is a recorded Trace event.
+type Event struct {
+	Name  string
+	Value int
+}
+
+// Action is what an armed point does on its n-th hit.
+type Action struct {
+	// Nth is the 1-based hit on which to act; 0 means every hit.
+	Nth int
+	// Kill sends SIGKILL to the current process.
+	Kill bool
+	// Sleep sleeps for the duration.
+	Sleep time.Duration
+	// Fault makes WriteFault/ErrFault inject an error.
+	Fault bool
+	// Short makes WriteFault report a short write of half the bytes together with the error.
+	Short bool
+	// Func is called (outside the registry lock).
+	Func func(name string, hit int)
+}
+
+var (
+	mu        sync.Mutex
+	hits      = map[string]int{}
+	total     int
+	armed     = map[string][]Action{}
+	fired     = map[string]int{}
+	events    []Event
+	traceOn   bool
+	yieldSeed uint64
+	yieldOn   bool
+)
+
+func init() {
+	// Child-process configuration through the environment.
+	if v := os.Getenv("VERIF_KILL"); v != "" {
+		for _, part := range strings.Split(v, ",") {
+			if name, n, ok := splitSpec(part); ok {
+				armed[name] = append(armed[name], Action{Nth: n, Kill: true})
+			}
+		}
+	}
+	if v := os.Getenv("VERIF_SLEEP"); v != "" {
+		for _, part := range strings.Split(v, ",") {
+			if name, n, ok := splitSpec(part); ok {
+				armed[name] = append(armed[name], Action{Sleep: time.Duration(n) * time.Microsecond})
+			}
+		}
+	}
+	if v := os.Getenv("VERIF_FAULT"); v != "" {
+		for _, part := range strings.Split(v, ",") {
+			if name, n, ok := splitSpec(part); ok {
+				armed[name] = append(armed[name], Action{Nth: n, Fault: true})
+			}
+		}
+	}
+	if v := os.Getenv("VERIF_YIELD_SEED"); v != "" {
+		if n, err := strconv.ParseUint(v, 10, 64); err == nil {
+			yieldSeed, yieldOn = n|1, true
+		}
+	}
+}
+
+func splitSpec(s string) (string, int, bool) {
+	i := strings.LastIndexByte(s, ':')
+	if i < 0 {
+		return "", 0, false
+	}
+	n, err := strconv.Atoi(s[i+1:])
+	if err != nil {
+		return "", 0, false
+	}
+	return s[:i], n, true
+}
+
+// Reset clears all counters, armed actions and recorded events.
+func Reset() {
+	mu.Lock()
+	defer mu.Unlock()
+	hits = map[string]int{}
+	total = 0
+	armed = map[string][]Action{}
+	fired = map[string]int{}
+	events = nil
+	traceOn = false
+	yieldOn = false
+}
+
+// Arm adds an action to a point. The name "*" matches every point and counts hits globally.
+func Arm(name string, action Action) {
+	mu.Lock()
+	defer mu.Unlock()
+	armed[name] = append(armed[name], action)
+}
+
+// SetYieldSeed enables seeded yields/short sleeps at every Point.
+func SetYieldSeed(seed uint64) {
+	mu.Lock()
+	defer mu.Unlock()
+	yieldSeed, yieldOn = seed|1, true
+}
+
+// EnableTrace turns event recording on or off.
+func EnableTrace(on bool) {
+	mu.Lock()
+	defer mu.Unlock()
+	traceOn = on
+}
+
+// Hits returns a copy of the per-point hit counters.
+func Hits() map[string]int {
+	mu.Lock()
+	defer mu.Unlock()
+	out := make(map[string]int, len(hits))
+	for k, v := range hits {
+		out[k] = v
+	}
+	return out
+}
+
+// TotalHits returns the number of hits over all points.
+func TotalHits() int {
+	mu.Lock()
+	defer mu.Unlock()
+	return total
+}
+
+// Fired returns a copy of the per-point count of actions that fired.
+func Fired() map[string]int {
+	mu.Lock()
+	defer mu.Unlock()
+	out := make(map[string]int, len(fired))
+	for k, v := range fired {
+		out[k] = v
+	}
+	return out
+}
+
+// Events returns and clears the recorded events.
+func Events() []Event {
+	mu.Lock()
+	defer mu.Unlock()
+	out := events
+	events = nil
+	return out
+}
+
+// hit registers a hit and returns the actions to perform.
+func hit(name string) (acts []Action, n int, yield uint64) {
+	mu.Lock()
+	defer mu.Unlock()
+	hits[name]++
+	total++
+	n = hits[name]
+	for _, a := range armed[name] {
+		if a.Nth == 0 || a.Nth == n {
+			acts = append(acts, a)
+			fired[name]++
+		}
+	}
+	for _, a := range armed["*"] {
+		if a.Nth == 0 || a.Nth == total {
+			acts = append(acts, a)
+			fired["*"]++
+		}
+	}
+	if yieldOn {
+		// xorshift64
+		yieldSeed ^= yieldSeed << 13
+		yieldSeed ^= yieldSeed >> 7
+		yieldSeed ^= yieldSeed << 17
+		yield = yieldSeed
+	}
+	return acts, n, yield
+}
+
+func perform(name string, acts []Action, n int, yield uint64) (fault, short bool) {
+	for _, a := range acts {
+		if a.Func != nil {
+			a.Func(name, n)
+		}
+		if a.Sleep > 0 {
+			time.Sleep(a.Sleep)
+		}
+		if a.Kill {
+			_ = syscall.Kill(os.Getpid(), syscall.SIGKILL)
+			// SIGKILL delivery is asynchronous; never proceed past the point.
+			select {}
+		}
+		if a.Fault {
+			fault = true
+			short = short || a.Short
+		}
+	}
+	switch yield % 4 {
+	case 1:
+		runtime.Gosched()
+	case 2:
+		time.Sleep(time.Duration(yield>>8%200) * time.Microsecond)
+	}
+	return fault, short
+}
+
+// Point marks a named point in an execution.
+func Point(name string) {
+	acts, n, yield := hit(name)
+	perform(name, acts, n, yield)
+}
+
+// Trace records a named event with a value.
+func Trace(name string, value int) {
+	mu.Lock()
+	if traceOn && len(events) < 1<<16 {
+		events = append(events, Event{Name: name, Value: value})
+	}
+	mu.Unlock()
+}
+
+// WriteFault passes (n, err) through, unless a fault is armed for this hit.
+func WriteFault(name string, n int, err error) (int, error) {
+	acts, hitN, yield := hit(name)
+	fault, short := perform(name, acts, hitN, yield)
+	if fault && err == nil {
+		if short {
+			return n / 2, ErrInjected
+		}
+		return 0, ErrInjected
+	}
+	return n, err
+}
+
+// ErrFault passes err through, unless a fault is armed for this hit.
+func ErrFault(name string, err error) error {
+	acts, n, yield := hit(name)
+	fault, _ := perform(name, acts, n, yield)
+	if fault && err == nil {
+		return ErrInjected
+	}
+	return err
+}
